@@ -470,6 +470,19 @@ func (m *govMon) step(height int64, t govTx, ok bool, pre, post *GState, watch [
 		if op == nil || ost != 0 || op.Status != stFunding || height > op.FD {
 			m.hit("fund-outside-funding-stage", "height %d proposal %s was %s", height, t.PID[:8], describe(a))
 		}
+		// "then voting once its goal is met before the funding deadline": a contribution that was
+		// accepted and takes the escrow to the goal starts the vote, in the same transaction
+		if p != nil && st == 0 && p.Status == stFunding && b != nil && p.Goal != nil {
+			sum := new(big.Int)
+			for _, f := range b.Funds {
+				if f.Amount != nil {
+					sum.Add(sum, f.Amount)
+				}
+			}
+			if sum.Cmp(p.Goal) >= 0 && height <= p.FD {
+				m.hit("goal-met-but-still-funding", "height %d proposal %s: contributions %s have reached the goal %s (funding deadline %d) and the proposal is still %s", height, t.PID[:8], sum, p.Goal, p.FD, describe(b))
+			}
+		}
 		if p != nil && p.Status == stVoting && op != nil && op.Status == stFunding {
 			// the snapshot: exactly the committed active validators with their current power
 			want := map[string]int64{}
